@@ -21,6 +21,7 @@
 //
 // strength.go adds the histories of harness/LESSONS.md: count/staged, str/kept,
 // str/edge, str/big, b32/kept, b32/long, id/odd-start, id/reader, cold-start, defaults.
+// audit.go adds count/many (13..40 rules, and the rule set without rules).
 package main
 
 import (
@@ -55,16 +56,18 @@ func main() {
 		"b32/kept = 8..120 IDs all encoded first, every result parsed twice later (permuted, partly through a reused buffer); b32/long = a 31..65537-byte digit string with one or two bytes outside the alphabet at ~37 positions; " +
 		"id/odd-start = a start time in the future, beyond time.Duration saturation on either side, or without monotonic reading; " +
 		"id/reader = child processes: one generator, a few IDs with the real crypto/rand.Reader, 6..30 with a replaced reader (failing, failing after 1..40 bytes, one byte per Read, all 0xFF, all zero), 3..10 with the real one again, each between two clock readings; " +
-		"cold-start = one fresh process per case, its first golib call given by index mod 8; defaults = child processes re-configuring the package-level generators, String and Id judged against the new configuration.")
+		"cold-start = one fresh process per case, its first golib call given by index mod 8; defaults = child processes re-configuring the package-level generators, String and Id judged against the new configuration; " +
+		"count/many (audit.go) = one case = 12..40 AddRule calls with positive parameters (periods 1..12/40/150/600, so with many equal and adjacent periods, in random order), one case in eight the rule set without any rule; 2..4 ids at every elapsed time -2..max period+12 and four far ones, Min/Max read before or after the Generate sweeps; distinct = hash of the rule list.")
 	r.Assume("the 32-character alphabet is the documented constant \"0123456789abcdefghjkmnprstuvwxyz\" (digits and lower-case letters without i, l, o, q)")
-	r.Assume("for randBit outside 2..22 the random part has the clamped width NewIdGenerator documents (<=1 -> 16 bits, >22 -> 22 bits): the ID always has 2..22 random bits below a 41-bit time field")
+	r.Assume("for randBit inside 2..22 the random part is exactly randBit bits wide; for randBit outside 2..22 the statement names no width of its own, so any width 2..22 that puts the elapsed milliseconds above the random part is accepted (golib documents <=1 -> 16 bits, >22 -> 22 bits; that choice is not judged): the ID always has 2..22 random bits below a 41-bit time field")
 	r.Assume("the time field is compared modulo 2^41 with the interval [elapsed ms read just before the call, elapsed ms read just after the call]; both readings and golib's own reading come from the same monotonic clock (the start time carries a monotonic reading), so this is an order relation between three readings, never a duration; increasing order is not asserted across a 2^41 ms wrap")
 	r.Assume("random sources offered to StrGenerator reach an accepted index: after a generous budget of words every source returns only zero words (index 0 is accepted by any rejection sampler), so a Generate that still does not return is not making progress; a source yielding only rejected indices for ever is excluded by construction")
 	r.Assume("CountGenerator oracle is only applied where the exact Max fits comfortably in an int (sum over rules of period/interval*intervalMaxIncr + periodEndMaxIncr < 2^62)")
 	r.Assume("strconv.FormatInt is the specification of the standard numerals")
 	r.Assume("a Go string returned by Generate / Base32 is a value: examining it again later (str/kept, b32/kept) asks for nothing beyond what the statement says about the returned value")
 	r.Assume("the package-level String and Id are the Generate of the package-level StrGenerator / IdGenerator as configured by the last SetStrGeneratorCharSet / SetIdGeneratorStartTime call; the width of the random part of the default IdGenerator is not assumed (any width 2..22 that puts the elapsed milliseconds above it is accepted)")
-	r.Assume("for a start time in the future only non-negativity of the IDs is judged")
+	r.Assume("for a start time in the future, and for a past start time without a monotonic reading, only non-negativity of the IDs is judged (the latter would need an order relation between readings of the wall clock, which can step); for a start time more than the largest time.Duration in the past, time.Since(start) is that largest Duration at every reading, so no clock is involved: the ID must carry either that saturated reading or the unsaturated number of milliseconds between the two dates")
+	r.Assume("a CountGenerator without any rule is a rule set with positive parameters (vacuously): Generate must be non-decreasing and between Min and Max there too")
 	r.Assume("Generate draws its random part through the process-wide variable crypto/rand.Reader (id/reader replaces it in a child process); if a tree does not, the replaced reader is simply never read and the engine degenerates to id/gen (the floor idreader_cases_with_failed_reads then reports the run inconclusive)")
 
 	cases(r, "b32/roundtrip", r.N(800, 30000), ev.Opt{HangViolation: true, MaxCaseSeconds: 60}, roundtripCase)
@@ -77,6 +80,7 @@ func main() {
 	cases(r, "count/pow32", r.N(60, 3000), ev.Opt{HangViolation: true, MaxCaseSeconds: 60}, countPow32Case)
 
 	cases(r, "count/staged", r.N(3000, 100000), ev.Opt{HangViolation: true, MaxCaseSeconds: 60}, countStagedCase)
+	cases(r, "count/many", r.N(1200, 40000), ev.Opt{HangViolation: true, MaxCaseSeconds: 60}, countManyCase)
 	cases(r, "str/kept", r.N(3000, 40000), ev.Opt{HangViolation: true, MaxCaseSeconds: 60}, strKeptCase)
 	cases(r, "str/edge", r.N(3000, 100000), ev.Opt{HangViolation: true, MaxCaseSeconds: 60}, strEdgeCase)
 	cases(r, "str/big", r.N(60, 1200), ev.Opt{HangViolation: true, MaxCaseSeconds: 120}, strBigCase)
@@ -153,6 +157,44 @@ func main() {
 	r.Require("idreader_ids_reader_kind_3", 100)
 	r.Require("idreader_ids_after_reader_restored", 800)
 	r.Require("idreader_ordered_pairs_checked", 2000)
+	// audit.go and floors for workloads that had none
+	r.Require("countmany_rule_sets_over_12_rules", 600)
+	r.Require("countmany_addrule_calls_with_a_smaller_period", 6000)
+	r.Require("countmany_empty_rule_sets", 60)
+	r.Require("countmany_empty_rule_set_generate_calls", 2000)
+	r.Require("countmany_generate_calls", 200000)
+	r.Require("countmany_increases_seen", 20000)
+	r.Require("idodd_saturated_past_time_fields_checked", 1000)
+	for rb := 2; rb <= 22; rb++ {
+		r.Require(fmt.Sprintf("id_cases_randbit_%02d", rb), 15)
+	}
+	r.Require("countpow32_generate_calls", 20000)
+	r.Require("countpow32_params_above_32_bits", 60)
+	r.Require("countwide_params_above_32_bits", 500)
+	r.Require("count_rule_sets_with_equal_periods", 300)
+	r.Require("count_increases_seen", 500000)
+	r.Require("invalid_class_uppercase", 50000)
+	r.Require("invalid_class_excluded_letter", 10000)
+	r.Require("invalid_class_high_byte", 500000)
+	r.Require("invalid_class_control", 100000)
+	r.Require("invalid_class_punct", 100000)
+	r.Require("positions_swept_with_256_values", 5000)
+	r.Require("b32kept_numerals_compared_later", 30000)
+	r.Require("b32kept_invalid_through_reused_buffer", 5000)
+	r.Require("b32long_inputs_two_invalid_bytes", 500)
+	r.Require("str_source_kind_5", 300) // chunk-crafted boundary words
+	r.Require("str_sets_size_pow2_minus_1", 300)
+	r.Require("str_sets_with_duplicates", 200)
+	r.Require("str_default_generator_calls", 1000)
+	r.Require("default_ids_generated", 1000)
+	r.Require("strbig_bigset_generate_calls", 50)
+	r.Require("idreader_ids_reader_kind_0", 300)
+	r.Require("idreader_ids_reader_kind_1", 200)
+	r.Require("idreader_ids_reader_kind_2", 80)
+	r.Require("idreader_ids_reader_kind_4", 60)
+	r.Require("cold_start_first_call_generate", 2)
+	r.Require("cold_start_first_call_count", 2)
+	r.Require("cold_start_first_call_base32", 2)
 	r.Require("cold_start_cases", 2*coldKinds)
 	r.Require("cold_start_first_call_parse_invalid", 4)
 	r.Require("cold_start_first_call_parse_digits", 2)
